@@ -70,6 +70,9 @@ var c20Binds = []struct{ key, action string }{
 	// things that move the line under the cursor without a cursor key
 	{"alt-r", "toggle-track"}, {"alt-s", "toggle-sort"}, {"alt-t", "exclude"}, {"alt-u", "toggle-header"}, {"alt-v", "change-query(ab)"},
 	{"alt-w", "track-current"}, {"alt-x", "change-header(h)"},
+	// one key: the cursor leaves the line, something restarts the preview there, the cursor comes back - the
+	// renderer only ever sees the line it knew
+	{"alt-y", "down+refresh-preview+up"}, {"alt-z", "up+change-preview(PV3 " + c20Template + ")+down"}, {"alt-1", "down+toggle-preview+toggle-preview+up"},
 }
 
 func genC20Plan(r *zsim.Rng) *sysPlan {
